@@ -433,7 +433,7 @@ def c10_isolation(spec: dict, obs, ex: refmodel.Expect) -> list[Finding]:
                         strict = False
                 elif why.startswith('flag:'):
                     allowed.add('CustomErr')
-                elif why in ('kill9', 'kill15'):
+                elif why in ('kill9', 'kill15', 'exit0'):
                     allowed.add('TaskDiedError')
                 elif why == 'exit':
                     allowed.add('SystemExit')
